@@ -73,7 +73,11 @@ def execute(mod, case, log_on=False):
             from . import simid
             id_mode = (case.get("config") or {}).get("id_mode") or ("unique", "reuse", "reuse")[case.get("sched_seed", 0) % 3]
             sid = simid.install(id_mode)
+            from . import simempty
+            simempty.install()            # uninitialised memory behind a seam
             stats = mod.run_case(case, sched)
+            if simempty.STATS["empty_calls"]:
+                sched.count("np_empty_calls_by_persim", simempty.STATS["empty_calls"])
             if sid.calls:
                 sched.count("id_calls_by_persim", sid.calls)
                 sched.count("id_values_reused", sid.reused)
